@@ -50,6 +50,26 @@ class StrSlotLM(LightNodeMixin):
         return "StrSlotLM(%r)" % (self.payload,)
 
 
+class _UnderLM(LightNodeMixin):
+    """Slotted user class whose NAME starts with an underscore and that keeps a private (double-underscore) slot:
+    Python mangles it to _UnderLM__payload (leading underscores of the class name are stripped)."""
+
+    __slots__ = ("__payload",)
+
+    def __init__(self, payload=None, parent=None, children=None):
+        self.__payload = payload
+        self.parent = parent
+        if children:
+            self.children = children
+
+    @property
+    def name(self):
+        return self.__payload
+
+    def __repr__(self):
+        return "_UnderLM(%r)" % (self.__payload,)
+
+
 class DictLM(LightNodeMixin):
     """User class on LightNodeMixin without __slots__ of its own (has a __dict__)."""
 
